@@ -1,0 +1,23 @@
+//go:build verif
+
+// Verification hooks (add-only, compiled only with -tags verif). They expose
+// the unexported OpenPGP packet writers of the inline signer to the
+// out-of-tree correspondence harness in /verif; no existing behaviour is
+// changed.
+package pgptools
+
+import "bytes"
+
+// VerifSerializeHeader calls serializeHeader.
+func VerifSerializeHeader(ptype, length int) ([]byte, error) {
+	var w bytes.Buffer
+	err := serializeHeader(&w, ptype, length)
+	return w.Bytes(), err
+}
+
+// VerifSerializeLiteral calls serializeLiteral on an in-memory message.
+func VerifSerializeLiteral(data []byte, filename string) ([]byte, error) {
+	var w bytes.Buffer
+	err := serializeLiteral(&w, bytes.NewReader(data), int32(len(data)), filename)
+	return w.Bytes(), err
+}
